@@ -97,6 +97,8 @@ def census(ctx, events_path, expect, families=False):
         fam = e.get('fam', '')
         if fam.startswith('seq_') and e.get('k', 0) >= 2:
             grp[('seq', e['op'], e['ty'])] += 1
+        if fam.startswith('ill_') and '+b_A' in fam:
+            grp[('ill', e['op'], e['ty'])] += 1
         if fam.startswith(HARD) and (e['ty'] == 'rat' or fam.startswith(('uscale', 'bal', 'tiny'))):
             grp[('hard', e['op'], e['ty'])] += 1
         for k in ('units_m', 'runits_m', 'lunits_m'):
@@ -106,6 +108,8 @@ def census(ctx, events_path, expect, families=False):
     for k in expect:
         if cnt[k] == 0:
             raise vlib.ToolError('no %s/%s event in %s: a branch of Trace_Gauss is not exercised' % (k[0], k[1], events_path))
+        if families and k[0] in ('solve', 'agree') and k[1] != 'rat' and grp[('ill',) + k] == 0:
+            raise vlib.ToolError('no ill-conditioned %s/%s event in %s' % (k[0], k[1], events_path))
         if families and (grp[('seq',) + k] == 0 or grp[('hard',) + k] == 0):
             raise vlib.ToolError('no sequence / special-family %s/%s event in %s' % (k[0], k[1], events_path))
     return cnt, worst
